@@ -212,7 +212,13 @@ class SimpleCommand(BaseCommand):
         if argument:
             new_code_block.append(Line(argument, comm_line_num, self.stack.current_line))  # type: ignore
         if code_block:
-            new_code_block.extend([Line.from_preline(i) for i in code_block])
+            for i in code_block:
+                if isinstance(i, list):
+                    raise InvalidArgumentsError(
+                        self.stack,
+                        "Tabs are not accepted in the arguments of this command. (Please use triple quotations to use tabs)",
+                    )
+                new_code_block.append(Line.from_preline(i))
         return new_code_block
 
     def __verify_all_args(self, commandName: PreLine, all_args: Arguments):
